@@ -293,6 +293,35 @@ def gen_case(rng, cid, size=None):
             "nested": g.nested, "probes": g.probes, "flags": sorted(g.flags)}
 
 
+# first characters: utf-8 lead byte 0xEF (U+F000-U+FFFF), the latin-1/cp1252 characters whose single byte is one of the
+# byte order mark's bytes, U+FEFF itself, and ordinary controls
+FIRST_EF = ["\uff08", "\uff01", "\uff21", "\ufefb", "\ufb01", "\uf8ff", "\ufffd", "\ufeff", "\uf000", "\uffe5"]
+# (not the full sequence EF BB BF: in a single-byte encoding those three bytes ARE a utf-8 byte order mark to mako)
+FIRST_L1 = ["\u00ef", "\u00bb", "\u00bf", "\u00ef\u00bb", "\u00bb\u00bf", "\u00bf\u00bf\u00ef"]
+FIRST_PLAIN = ["h", "\u00e9", "<", "$"]
+
+
+def gen_enc_case(rng, cid):
+    """a template whose source is held as BYTES on the file paths: encoding x how it is declared x first character"""
+    enc_, how = rng.choice([("utf-8", "plain"), ("utf-8", "plain"), ("utf-8", "bom"), ("utf-8", "bom"), ("utf-8", "comment"),
+                            ("latin-1", "input_encoding"), ("cp1252", "input_encoding"), ("latin-1", "comment"),
+                            ("cp1252", "comment"), ("utf-8", "input_encoding")])
+    if enc_ == "utf-8":
+        first = rng.choice(FIRST_EF + FIRST_EF + FIRST_L1 + FIRST_PLAIN)
+        body = rng.choice(["hello ${v1} \u65e5\u672c", " \uff08x\uff09 ${v2 | h}", ""])
+    else:
+        first = rng.choice(FIRST_L1 + FIRST_L1 + FIRST_PLAIN)
+        body = rng.choice(["hola ${v1} \u00bf\u00e9\u00bb", " \u00ef ${v2 | h}", ""])
+    items = [first + body, "<%def name=\"d1()\">" + first + "${v2}</%def>${d1()}"]
+    if how == "comment":
+        items.insert(0, "## -*- coding: %s -*-\n" % enc_)
+    opts = {"input_encoding": enc_} if how == "input_encoding" else {}
+    return {"id": cid, "items": items, "aux": {}, "uri": rng.choice(["/main.html", "/sub/enc.html"]),
+            "data": {"v1": "one", "v2": "zw\u00ebi"}, "opts": opts, "defs": [["d1", {}]], "nested": [], "probes": [],
+            "file_encoding": enc_, "bom": how == "bom",
+            "flags": ["enc:%s:%s" % (enc_, how), "first:" + ("EF-lead" if first in FIRST_EF else "bom-byte" if first in FIRST_L1 else "plain")]}
+
+
 def case_text(case):
     return "".join(case["items"])
 
@@ -453,7 +482,10 @@ def write_set(case, tdir):
         p = os.path.join(tdir, uri.lstrip("/"))
         os.makedirs(os.path.dirname(p), exist_ok=True)
         with open(p, "wb") as f:
-            f.write(text.encode("utf-8"))
+            if uri == case["uri"]:
+                f.write((b"\xef\xbb\xbf" if case.get("bom") else b"") + text.encode(case.get("file_encoding", "utf-8")))
+            else:
+                f.write(text.encode("utf-8"))
     return os.path.join(tdir, case["uri"].lstrip("/"))
 
 
@@ -562,7 +594,7 @@ def compare_obs(ref, ob, path, case, loose, diffs):
             rel = linemap_relation(la, ma, lb, mb)
             if rel:
                 diffs.append(["path-code", path, "line_map", None, rel])
-        want_magic = path in ("moddir", "modcall", "modtmpl_file", "reload")
+        want_magic = path in ("moddir", "modcall", "modtmpl_file", "reload")     # (bytes / modtmpl_bytes: text-path modules)
         if mb != want_magic:
             diffs.append(["path-code", path, "magic-comment", want_magic, mb])
     for k in ("list_defs", "has_def"):
@@ -670,6 +702,21 @@ def worker_case_A(case, root):
             return t
         if path == "str_bare":
             return Template(text, lookup=lk0, **opts)
+        if path == "bytes":
+            # the text handed over as the bytes of the file (BOM included, if any)
+            with open(main_file, "rb") as f:
+                return Template(f.read(), uri=uri, filename=main_file, lookup=lk0, **opts)
+        if path == "modtmpl_bytes":
+            mp = os.path.join(cdir, "mt", "modb_%d.py" % case["id"])
+            os.makedirs(os.path.dirname(mp), exist_ok=True)
+            with open(mp, "w", encoding="utf-8") as f:
+                f.write(ref["code"])
+            mod = load_pyfile("c08_mb_%d" % case["id"], mp)
+            with open(main_file, "rb") as f:
+                raw = f.read()
+            return ModuleTemplate(mod, module_source=ref["code"], template_source=raw, template_filename=main_file,
+                                  lookup=lk0, output_encoding=opts.get("output_encoding"),
+                                  encoding_errors=opts.get("encoding_errors", "strict"))
         if path == "file":
             return TemplateLookup([tdir], **lkopts).get_template(uri)
         if path == "file_direct":
@@ -699,14 +746,16 @@ def worker_case_A(case, root):
 
     ref = None
     keep = []
-    for path in ("str", "str_bare", "file", "file_direct", "moddir", "modcall", "modtmpl_file", "modtmpl_code"):
+    for path in ("str", "str_bare", "bytes", "file", "file_direct", "moddir", "modcall", "modtmpl_file", "modtmpl_code",
+                 "modtmpl_bytes"):
         try:
             t = build(path)
         except Exception as e:       # noqa: BLE001
             ob = {"construct": ["exc", type(e).__name__, canon_msg(str(e), root)]}
             t = None
         else:
-            ob = observe(t, case, root, text, full=(path in ("str", "moddir")))
+            ob = observe(t, case, root, text, full=(path in ("str", "moddir") or
+                                                    (bool(case.get("file_encoding")) and path in ("bytes", "file", "modtmpl_bytes"))))
             ob["construct"] = ["ok", None]
             keep.append(t)
         res["paths"].append(path)
@@ -1158,6 +1207,8 @@ def shrink_case(ctx, case, seeds, base, site, budget):
         for k in sorted(cur[key]):
             if n[0] >= budget:
                 break
+            if k == "input_encoding":
+                continue                      # it says how the bytes on disk are to be read: part of the input
             n[0] += 1
             c = dict(cur)
             c[key] = {a: b for a, b in cur[key].items() if a != k}
@@ -1175,7 +1226,8 @@ def shrink_case(ctx, case, seeds, base, site, budget):
 
 def public_case(case, extra=None):
     c = {"input": case_text(case), "uri": case["uri"], "data": case["data"], "opts": case["opts"], "aux": case["aux"],
-         "defs": case["defs"], "nested": case.get("nested", []), "probes": case.get("probes", []), "items": case["items"]}
+         "defs": case["defs"], "nested": case.get("nested", []), "probes": case.get("probes", []), "items": case["items"],
+         "file_encoding": case.get("file_encoding", "utf-8"), "bom": bool(case.get("bom"))}
     if extra:
         c.update(extra)
     return c
@@ -1261,6 +1313,7 @@ def oracle_differential(ctx, base):
     ncases = 110 if quick else 1400
     seeds = ["0", "1", "2", str(ctx.rng.randrange(3, 4294967295))]
     cases = [gen_case(ctx.rng, i) for i in range(ncases)]
+    cases += [gen_enc_case(ctx.rng, len(cases) + i) for i in range(40 if quick else 500)]
     # a few fixed shapes that must always be present (each is also produced by the generator)
     fixed = [
         {"items": ["<%page args=\"p1='P1', p2='P2', p3='P3', p4='P4'\"/>",
@@ -2005,6 +2058,35 @@ def oracle_multidir(ctx, cases, outs, seeds):
                 "asked": "file/source/code/defs/output of every URI (direct, include, inherit, namespace), mako-render"})
 
 
+def corr_source_bytes(ctx):
+    """the real ModuleInfo.source on byte strings (latin-1 as the codec: bytes <-> characters one to one) against the
+    model's `sourcePayload`"""
+    import mako.template as T
+    drv = ctx.driver()
+    st = ctx.stream("corr.source_bytes")
+
+    class Mod:
+        _source_encoding = "latin-1"
+    reqs, datas = [], []
+    alpha = [0xEF, 0xBB, 0xBF, 0xEF, 0xBB, 0xBF, 0xBC, 0x88, 0x61, 0x0A, 0x23, 0xFE, 0xFF]
+    for n in range(0, 4):                                       # every byte string of length <= 3 over the BOM bytes + 2
+        import itertools
+        for tup in itertools.product([0xEF, 0xBB, 0xBF, 0x61, 0xBC], repeat=n):
+            datas.append(bytes(tup))
+    for _ in range(300 if ctx.quick else 5000):
+        datas.append(bytes(ctx.rng.choice(alpha) for _ in range(ctx.rng.randint(0, 9))))
+    for d in datas:
+        reqs.append("p8 srcbytes " + enc(d.decode("latin-1")))
+    for d, o in zip(datas, drv.ask_many(reqs)):
+        st["cases"] += 1
+        mi = T.ModuleInfo.__new__(T.ModuleInfo)
+        mi.module, mi.template_source, mi.template_filename = Mod, d, None
+        got = mi.source
+        ctx.branch("source_bytes:" + ("bom" if d.startswith(b"\xef\xbb\xbf") else "bom-byte-first" if d[:1] in (b"\xef", b"\xbb", b"\xbf") else "other"))
+        if dec(o) != got:
+            ctx.disagree("corr.source_bytes", {"input": d.hex()}, dec(o).encode("latin-1").hex(), got.encode("latin-1").hex())
+
+
 def corr_search(ctx):
     """the probe order of the real get_template (os.path.isfile patched) against the model's lookupFile"""
     import posixpath
@@ -2216,6 +2298,7 @@ def run(ctx):
             corr_registry(ctx)
             corr_defs_header(ctx)
             corr_search(ctx)
+            corr_source_bytes(ctx)
         finally:
             try:
                 oracle_lookup(ctx, base)
@@ -2296,7 +2379,8 @@ def replay(ctx, data):
         if isinstance(case, dict) and "items" in case:
             c = {"id": 0, "items": case["items"], "aux": case.get("aux", {}), "uri": case.get("uri", "/main.html"),
                  "data": case.get("data", {}), "opts": case.get("opts", {}), "defs": case.get("defs", []),
-                 "nested": case.get("nested", []), "probes": case.get("probes", []), "cli_real": True}
+                 "nested": case.get("nested", []), "probes": case.get("probes", []), "cli_real": True,
+                 "file_encoding": case.get("file_encoding", "utf-8"), "bom": bool(case.get("bom"))}
             seeds = case.get("hashseeds") or ["0", "1", "2"]
             if len(seeds) == 1:
                 seeds = seeds + [s for s in ("0", "1", "2") if s not in seeds]
